@@ -63,6 +63,14 @@ def run(ctx):
     ov = [job(D, g, target=t, opts=dict(v, max_fun_evals=35 + 10 * D), seed=seeds[0], base=b) for D in (1, 2) for g in ("lin", "log") for v in variants
           for t, b in (("adv", "F"), ("adv", "S4"), ("sphere_in", "F"))]
     st = explore(ov, ["ans"], 0 if q else 1, sink, stats=st, name="option-variants")
+    # logger caches smaller than the initial design (the arrays grow while the design is being evaluated), with and without a transform
+    cg = [job(D, g, target=t, base=b, opts={"cache_size": cs, "max_fun_evals": 30 + 10 * D}, seed=seeds[0], x0=x0) for D in (1, 2, 3) for g in ("lin", "log", "unb") for cs in (2, 3, 4)
+          for t, b in (("adv", "F"), ("sphere_in", "F"), ("sphere_corner", "F")) for x0 in ("in", "lb") if not (g == "unb" and x0 == "lb")]
+    st = explore(cg, ["ans"], 0, sink, stats=st, name="small-cache")
+    # minimiser exactly at the origin of the internal coordinates (an all-zero vector), reached exactly on coarse search grids
+    pc = [job(D, g, target="sphere_pcentre", opts=dict(o, max_fun_evals=40 + 10 * D), seed=s, x0=x0) for D in (1, 2) for g in ("lin", "log", "lin2", "tight")
+          for o in ({}, {"search_grid_number": 2}, {"search_grid_number": 3}) for x0 in ("in", "ub") for s in (seeds + [seeds[0] + 3])]
+    st = explore(pc, ["ans"], 0, sink, stats=st, name="minimiser-at-internal-origin")
     sw = sweep_jobs(lambda D, m, o: job(D, "lin", target="sphere_in" if D == 2 else "adv", base="S4", opts=dict(o, max_fun_evals=o.get("max_fun_evals", 40 + 10 * D)), seed=seeds[0]), q, modes=("det",))
     st = explore(sw, ["ans"], 0, sink, stats=st, name="option-variants-full")
     # (g) integer-valued landscapes returned as NumPy / Python numeric types other than float (differences must not wrap around)
